@@ -279,3 +279,10 @@ Example ex_mro_consistent :
                    (18%N, [18%N; 16%N; 30%N; 31%N; cObject]); (19%N, [19%N; 31%N; cObject]);
                    (30%N, [30%N; cObject]); (31%N, [31%N; cObject])] = true.
 Proof. vm_compute. reflexivity. Qed.
+
+(* ---- C14_merge_full is a theorem (Proofs/MergePermEquiv.v): permuting the inputs of the merge gives an equivb-equal
+        result, TypedDicts anywhere ---- *)
+From MT Require Import MergePermEquiv.
+Theorem C14_merge_full_holds : C14_merge_full.
+Proof. exact merge_perm_equivb. Qed.
+Print Assumptions C14_merge_full_holds.
